@@ -203,6 +203,7 @@ class d3TimeScaleMilliseconds(object):
         pass
 
     def range(self, start, stop, step):
+        step = max(1, int(step))
         return list(
             map(
                 milli2dt,
